@@ -62,6 +62,7 @@ def limit(ctx, fn, P, code, spec_text, atoms, oid, text, subst, nmin=1):
 
 
 def check(ctx):
+    op_success_table(ctx)
     P = ctx.program(UNITS)
     es = ctx.used(P.fn("EvalScript", nparams=7))
     subst = naming(es, P)
@@ -157,3 +158,54 @@ def check(ctx):
         ctx.ob("tapscript/weight-order@L%s" % stmt.get("l"), "ORDER", "the budget is decremented before it is compared with zero", "dec" in st, "%s:%s" % (ct.file, stmt.get("l")))
     limit(ctx, ct, P, "SCRIPT_ERR_TAPSCRIPT_VALIDATION_WEIGHT", "!EMPTY && NEG", {"EMPTY": ["sig.empty()", ("success", False)], "NEG": "execdata.m_validation_weight_left < 0"},
           "tapscript/weight-reject", "a negative remaining budget after a non-empty signature fails the script", tsub)
+
+
+# ------------------------------------------------------------------------------------------------
+BIP342_OP_SUCCESS = {80, 98} | set(range(126, 130)) | set(range(131, 135)) | {137, 138, 141, 142} | set(range(149, 154)) | set(range(187, 255))
+
+
+def _eval_int_pred(e, var, val, consts):
+    """Value of a side-effect free predicate over one integer variable (a finite table, folded from the syntax tree - nothing is run)."""
+    if not is_expr(e):
+        raise AnalysisBroken("IsOpSuccess: unexpected node %r" % (e,))
+    t = e[0]
+    if t in ("paren", "defarg"):
+        return _eval_int_pred(e[1], var, val, consts)
+    if t == "cast":
+        return _eval_int_pred(e[2], var, val, consts)
+    if t == "int":
+        return int(e[1])
+    if t == "bool":
+        return bool(e[1])
+    if t == "enum":
+        return int(e[2]) if len(e) > 2 else consts(e[1])
+    if t in ("param", "local") and e[1] == var:
+        return val
+    if t == "u" and e[1] == "!":
+        return not _eval_int_pred(e[2], var, val, consts)
+    if t == "b":
+        op = e[1]
+        if op == "||":
+            return bool(_eval_int_pred(e[2], var, val, consts)) or bool(_eval_int_pred(e[3], var, val, consts))
+        if op == "&&":
+            return bool(_eval_int_pred(e[2], var, val, consts)) and bool(_eval_int_pred(e[3], var, val, consts))
+        a, b = _eval_int_pred(e[2], var, val, consts), _eval_int_pred(e[3], var, val, consts)
+        if op in ("==", "!=", "<", ">", "<=", ">="):
+            return {"==": a == b, "!=": a != b, "<": a < b, ">": a > b, "<=": a <= b, ">=": a >= b}[op]
+    raise AnalysisBroken("IsOpSuccess: cannot fold %s" % show(e)[:80])
+
+
+def op_success_table(ctx):
+    """BIP342: the opcodes that make a tapscript succeed unconditionally are exactly 80, 98, 126-129, 131-134, 137-138, 141-142,
+    149-153 and 187-254 (255, OP_INVALIDOPCODE, is not one of them)."""
+    PS = ctx.program(["script/script.cpp"])
+    f = ctx.used(PS.fn("IsOpSuccess"))
+    rets = [e for e in exits(f, PS) if e.kind == "ret"]
+    if len(rets) != 1 or not is_expr(rets[0].value) or len(f.params) != 1 or [g for g in rets[0].site.guards if g.kind in ("if", "sc", "loop", "case")]:
+        # several exits: fold each exit's own condition as well
+        raise AnalysisBroken("IsOpSuccess: not a single return of a predicate over its parameter (idiom changed)")
+    var = f.params[0]["n"]
+    consts = lambda name: PS.const(name)
+    got = {v for v in range(256) if _eval_int_pred(rets[0].value, var, v, consts)}
+    ctx.ob("IsOpSuccess/table", "TABLE", "IsOpSuccess is true exactly for the BIP342 OP_SUCCESSx opcodes (80, 98, 126-129, 131-134, 137-138, 141-142, 149-153, 187-254)",
+           got == BIP342_OP_SUCCESS, f.where, None if got == BIP342_OP_SUCCESS else {"extra": sorted(got - BIP342_OP_SUCCESS), "missing": sorted(BIP342_OP_SUCCESS - got)})
